@@ -34,7 +34,7 @@ Definition pout_eqb (a b : pout) : bool :=
   match a, b with
   | PUnit, PUnit => true
   | PRes x, PRes y => res_eqb x y
-  | PNames x, PNames y => cseteqb (sadd N.eqb 0 x) (sadd N.eqb 0 y)   (* the default graph counts as always listed *)
+  | PNames x, PNames y => cseteqb x y
   | _, _ => false
   end.
 
@@ -45,11 +45,11 @@ Definition NO_GRAPH : cid := 996.
 Definition snap_of (d : ds) : psnap :=
   (quads (st d) ++ map (fun t => (t, NO_GRAPH)) (orphans (st d)), known (st d)).
 
-(* two snapshots show the same dataset: same quads, same graph names, the
-   default graph (0) counting as always present (Dataset.graphs() lists it
-   whether or not the store has registered it yet) *)
+(* two snapshots show the same dataset: the same quads and EXACTLY the same
+   graph names in the store's own list (nothing is absorbed: a read that
+   registers a graph, the default graph included, is a difference) *)
 Definition psnap_same (a b : psnap) : bool :=
-  qseteqb (fst a) (fst b) && cseteqb (sadd N.eqb 0 (snd a)) (sadd N.eqb 0 (snd b)).
+  qseteqb (fst a) (fst b) && cseteqb (snd a) (snd b).
 
 Record pcase := { p_ds : bool; p_build : list op; p_reads : list read }.
 
@@ -64,14 +64,13 @@ Definition M_NAMESPACE : N := 6.
 Definition M_PREFIX : N := 7.
 Definition M_QUERY : N := 8.            (* Store.query: Memory refuses (NotImplementedError), the engine takes over *)
 Definition M_BIND : N := 20.            (* prefix table only: not part of the property's state *)
-Definition M_ADD_GRAPH_DEFAULT : N := 21.  (* add_graph(<the default graph>): Dataset.graphs()/contexts() re-creating it *)
-(* everything else is a write: 30 add, 31 addN, 32 remove, 33 add_graph(other), 34 remove_graph,
+(* everything else is a write: 21 add_graph(<the default graph>) (what Dataset.graphs() did before 6844ed54), 30 add, 31 addN, 32 remove, 33 add_graph(other), 34 remove_graph,
    35 commit, 36 rollback, 37 open, 38 close, 39 destroy, 40 update, 41 gc, 42 create, 43 attribute assignment,
    44 anything unknown *)
 
 Definition read_meths : list N :=
   [M_TRIPLES; M_TRIPLES_CHOICES; M_CONTEXTS; M_LEN; M_NAMESPACES; M_NAMESPACE; M_PREFIX; M_QUERY].
-Definition benign_meths : list N := [M_BIND; M_ADD_GRAPH_DEFAULT].
+Definition benign_meths : list N := [M_BIND].
 Definition call_ok (c : N) : bool := memb N.eqb c (read_meths ++ benign_meths).
 
 (* per read: the snapshot after the first call, whether the second call
@@ -106,7 +105,8 @@ Definition obs_eqb (a b : pobs) : bool :=
 (* Specification: the state the reads start from is the one the C02 mapping
    prescribes for the building history; every read leaves the dataset as it
    was just before it; every read answers the same twice; every read talks to
-   the store through read methods only (or the two justified benign ones). *)
+   the store through read methods only (or bind: the prefix table is not part
+   of the property's state). *)
 Fixpoint pure_run (prev : psnap) (l : list rentry) : bool :=
   match l with
   | [] => true
@@ -124,13 +124,18 @@ Definition pwf (c : pcase) : Prop :=
   forallb (fun o => negb (is_read o)) (p_build c) = true.
 
 (* ------------------------------------------------------------------ *)
-(* Read programs: the store's READ interface as a small language.  A
-   serialiser, a query evaluation, a comparison, an iteration is - as far as
-   the store is concerned - a program of this shape: it asks the store
-   something, computes (arbitrarily: the continuations are Gallina functions)
-   and asks again.  The only two non-reads the catalogue of reads was seen to
-   issue are included with their effect: registering the default graph
-   (Dataset.graphs()/contexts()) and binding a prefix. *)
+(* Read programs: the store's READ interface as a small language.  As far as
+   the store is concerned a serialiser, a query evaluation, a comparison, an
+   iteration is a program of this shape: it asks the store something, computes
+   (arbitrarily: the continuations are Gallina functions) and asks again.
+   The theorems about this language (Purity/Programs.v) are facts about the
+   INTERFACE - none of its operations has a write in its semantics except
+   [PBind] on the prefix table, so they hold by construction of the language.
+   They say something about a concrete serialiser or query only through the
+   per-run recording of the store methods it calls (harness/c13.py); no
+   theorem states that a given rdflib function IS such a program.
+   (Before 6844ed54 the language needed a [PTouchDefault] operation for
+   Dataset.graphs() registering the default graph; no read issues it any more.) *)
 Record rstate := { r_ds : ds; r_ns : list (N * N) }.   (* dataset model + the store's prefix table *)
 
 (* Memory.contexts(triple): every known graph, or the graphs holding the triple *)
@@ -143,21 +148,16 @@ Inductive prog (A : Type) : Type :=
 | PContexts (ot : option triple) (k : list cid -> prog A)                        (* contexts *)
 | PLen (oc : option cid) (k : N -> prog A)                                       (* __len__ *)
 | PNamespaces (k : list (N * N) -> prog A)                                       (* namespaces / namespace / prefix *)
-| PTouchDefault (k : prog A)                                                     (* add_graph(<default graph>) *)
 | PBind (pfx ns : N) (k : prog A).                                               (* bind *)
 Arguments PRet {A} a.
 Arguments PTriples {A} p oc k.
 Arguments PContexts {A} ot k.
 Arguments PLen {A} oc k.
 Arguments PNamespaces {A} k.
-Arguments PTouchDefault {A} k.
 Arguments PBind {A} pfx ns k.
 
 Definition bind_ns (pfx ns : N) (t : list (N * N)) : list (N * N) :=
   (pfx, ns) :: filter (fun x => negb (N.eqb (fst x) pfx)) t.
-
-Definition touch0 (s : rstate) : rstate :=
-  {| r_ds := set_st (r_ds s) (st_add_graph (st (r_ds s)) 0); r_ns := r_ns s |}.
 
 Fixpoint run {A} (pr : prog A) (s : rstate) : rstate * A :=
   match pr with
@@ -166,31 +166,19 @@ Fixpoint run {A} (pr : prog A) (s : rstate) : rstate * A :=
   | PContexts ot k => run (k (st_contexts (st (r_ds s)) ot)) s
   | PLen oc k => run (k (st_len (st (r_ds s)) oc)) s
   | PNamespaces k => run (k (r_ns s)) s
-  | PTouchDefault k => run k (touch0 s)
   | PBind a b k => run k {| r_ds := r_ds s; r_ns := bind_ns a b (r_ns s) |}
   end.
 
-(* programs that bind no prefix / that issue reads only *)
+(* programs that bind no prefix *)
 Inductive bind_free {A} : prog A -> Prop :=
 | bf_ret a : bind_free (PRet a)
 | bf_triples p oc k : (forall x, bind_free (k x)) -> bind_free (PTriples p oc k)
 | bf_contexts ot k : (forall x, bind_free (k x)) -> bind_free (PContexts ot k)
 | bf_len oc k : (forall x, bind_free (k x)) -> bind_free (PLen oc k)
-| bf_ns k : (forall x, bind_free (k x)) -> bind_free (PNamespaces k)
-| bf_touch k : bind_free k -> bind_free (PTouchDefault k).
-
-Inductive quiet {A} : prog A -> Prop :=
-| q_ret a : quiet (PRet a)
-| q_triples p oc k : (forall x, quiet (k x)) -> quiet (PTriples p oc k)
-| q_contexts ot k : (forall x, quiet (k x)) -> quiet (PContexts ot k)
-| q_len oc k : (forall x, quiet (k x)) -> quiet (PLen oc k)
-| q_ns k : (forall x, quiet (k x)) -> quiet (PNamespaces k).
-
-(* the default graph is registered with the store *)
-Definition settled (s : rstate) : Prop := In 0 (known (st (r_ds s))).
+| bf_ns k : (forall x, bind_free (k x)) -> bind_free (PNamespaces k).
 
 (* which operation of the language a recorded store method is *)
-Inductive okind := KTriples | KContexts | KLen | KNamespaces | KTouch | KBind | KRefused.
+Inductive okind := KTriples | KContexts | KLen | KNamespaces | KBind | KRefused.
 Definition meth_kind (c : N) : option okind :=
   if N.eqb c M_TRIPLES || N.eqb c M_TRIPLES_CHOICES then Some KTriples
   else if N.eqb c M_CONTEXTS then Some KContexts
@@ -198,12 +186,11 @@ Definition meth_kind (c : N) : option okind :=
   else if N.eqb c M_NAMESPACES || N.eqb c M_NAMESPACE || N.eqb c M_PREFIX then Some KNamespaces
   else if N.eqb c M_QUERY then Some KRefused
   else if N.eqb c M_BIND then Some KBind
-  else if N.eqb c M_ADD_GRAPH_DEFAULT then Some KTouch
   else None.
 
 (* three reads of the front end, written as programs *)
 Definition prog_quads (p : pat) : prog (list quad) :=
   PTriples p None (fun l => PRet (flat_map (fun x => map (fun g => (fst x, g)) (snd x)) l)).
 Definition prog_graphs (dataset : bool) : prog (list cid) :=
-  PContexts None (fun k => if dataset && negb (memb N.eqb 0 k) then PTouchDefault (PRet (k ++ [0])) else PRet k).
+  PContexts None (fun k => PRet (if dataset then (if memb N.eqb 0 k then k else k ++ [0]) else k)).
 Definition prog_len : prog N := PLen None (fun n => PRet n).
